@@ -208,7 +208,7 @@ FAMS = [
                      t=L('0', '0px', '1px', '0%', '.5em', 'auto', '-1px', '0.0em', '1PX', 'calc(1px + 0px)', '0s'))]),
     dict(fam='bgpos', props=['background-position'], kind='list', min=1, max=dict(q=4, t=4),
          slots=[dict(q=L('left', 'right', 'top', 'bottom', 'center', '0', '10%', '50%', '100%', '1px'),
-                     t=L('left', 'right', 'top', 'bottom', 'center', '0', '0%', '0px', '10%', '50%', '100%', '1px', '-5%', 'CENTER', ','))]),
+                     t=L('left', 'right', 'top', 'bottom', 'center', '0', '0%', '0px', '10%', '50%', '100%', '1px', '0.5px', '-5%', 'CENTER', ','))]),
     dict(fam='bgsize', props=['background-size'], kind='list', min=1, max=dict(q=3, t=4),
          slots=[dict(q=L('auto', '0', '10%', '1px', 'cover', 'contain', ','), t=L('auto', '0', '0px', '10%', '1px', 'cover', 'contain', ',', 'AUTO'))]),
     dict(fam='bgrepeat', props=['background-repeat'], kind='list', min=1, max=dict(q=3, t=4),
@@ -235,17 +235,19 @@ FAMS = [
     dict(fam='fontweight', props=['font-weight'], kind='list', min=1, max=dict(q=1, t=2),
          slots=[dict(q=L('normal', 'bold', '400', 'bolder', 'inherit', 'NORMAL'), t=L('normal', 'bold', '400', '700', 'bolder', 'inherit', 'NORMAL', 'Bold', '1e2'))]),
     dict(fam='flex', props=['flex'], kind='list', min=1, max=dict(q=3, t=3),
-         slots=[dict(q=L('0', '1', '2', 'auto', 'none', 'initial', '0px', '0%', '10px'),
-                     t=L('0', '1', '2', 'auto', 'none', 'initial', '0px', '0%', '10px', 'content', '1.5', '0em', 'AUTO', '5000%', '1.0'))]),
+         slots=[dict(q=L('0', '1', '2', '10', '1.5', 'auto', 'none', 'initial', '0px', '0%', '10px'),
+                     t=L('0', '1', '2', '10', '12', '1e1', '0.5', '00', 'auto', 'none', 'initial', '0px', '0%', '10px', 'content', '1.5', '0em', 'AUTO', '5000%', '1.0'))]),
     dict(fam='flexlong', props=['flex-basis', 'flex-grow', 'flex-shrink', 'order'], kind='list', min=1, max=dict(q=1, t=1),
          slots=[dict(q=L('initial', '0', '0px', '0%', 'auto', '1', 'inherit'), t=L('initial', '0', '0px', '0%', 'auto', '1', 'inherit', 'INITIAL', 'content', '10px', '-1'))]),
     dict(fam='boxshadow', props=['box-shadow'], kind='list', min=1, max=dict(q=4, t=4),
-         slots=[dict(q=L('0', '0px', '1px', 'inset', 'red', 'none', 'initial', ','), t=L('0', '0px', '1px', '-1px', 'inset', 'red', '#000', 'none', 'initial', ',', 'rgba(0,0,0,0)'))]),
+         slots=[dict(q=L('0', '0px', '1px', '0.5px', 'inset', 'red', 'none', 'initial', ','), t=L('0', '0px', '1px', '-1px', '0.5px', '01px', 'inset', 'red', '#000', 'none', 'initial', ',', 'rgba(0,0,0,0)'))]),
     dict(fam='textshadow', props=['text-shadow'], kind='list', min=1, max=dict(q=3, t=4),
          slots=[dict(q=L('0', '1px', 'white', '#FFF', ','), t=L('0', '0px', '1px', 'white', '#FFF', ',', 'BLACK', 'rgb(255,255,255)'))]),
     dict(fam='urange', props=['unicode-range'], kind='list', min=1, max=dict(q=3, t=3),
          slots=[dict(q=L('U+26', 'U+0-7F', 'U+26??', 'U+2680-2780', 'U+2680-2690', 'U+0-10FFFF', 'u+0025-00ff', ','),
                      t=L('U+26', 'U+0-7F', 'U+26??', 'U+27??', 'U+2680-2780', 'U+2680-2690', 'U+0-10FFFF', 'u+0025-00ff', 'U+4??', 'U+1234-1234', 'U+0-FFFF', 'U+10000-10FFFF', 'U+??????', 'U+27', ','))]),
+    dict(fam='urangeadj', props=['unicode-range'], kind='clist', min=1, max=dict(q=2, t=3),
+         slots=[dict(q='URANGE_TINY', t='URANGE_TINY')]),
     dict(fam='rgbc', props=COLOR_PROPS, kind='func', fn='rgb', sep='comma', slots=[RGB_SLOT, RGB_SLOT, RGB_SLOT, ALPHA_SLOT]),
     dict(fam='rgbs', props=COLOR_PROPS, kind='func', fn='rgba', sep='space', slots=[RGB_SLOT, RGB_SLOT, RGB_SLOT, ALPHA_SLOT]),
     dict(fam='hslc', props=COLOR_PROPS, kind='func', fn='hsl', sep='comma',
@@ -281,6 +283,12 @@ SEL_T = SEL_Q + [("[a='b c' i]", 'sub'), ('[ title ~= "x" ]', 'sub'), (':NOT( P 
                  (':lang(EN)', 'sub'), ('[type=a i]', 'sub'), (':nth-child(odd)', 'sub'), ('svg|a', 'type')]
 
 
+# every range over the code points 0..4, plus shapes around a wildcard block and the 7F/80 boundary:
+# all orderings, adjacencies and overlaps appear among the pairs and triples
+URANGE_TINY = ['U+%X' % a if a == b else 'U+%X-%X' % (a, b) for a in range(5) for b in range(a, 5)] + \
+              ['U+0-7F', 'U+80', 'U+7F-80', 'U+81', 'U+?', 'U+10', 'U+F-10', 'U+2600-26FF', 'U+2680-2700', 'U+2700', 'U+25FF']
+
+
 def named_colours():
     txt = open(os.path.join(vlib.SPEC, 'CssColorTable.tla')).read()
     return re.findall(r'<<"(\w+)", <<', txt)
@@ -295,6 +303,8 @@ def slot_lexemes(fam, slot, tier):
         return COLORTOKS_T + names + [n.upper() for n in names[::9]]
     if x == 'STRURL':
         return STRURL
+    if x == 'URANGE_TINY':
+        return URANGE_TINY
     if x == 'SEL_Q':
         return SEL_Q
     if x == 'SEL_T':
@@ -307,22 +317,24 @@ def write_alpha(ctx, exe, tier):
     read by spec/CssGen.tla (environment variable ALPHA)."""
     lexs = []
     for F in FAMS:
+        ur = bool(F['props']) and F['props'][0] == 'unicode-range'
         for slot in F['slots']:
             for x in slot_lexemes(F, slot, tier):
-                lexs.append(x[0] if isinstance(x, tuple) else x)
+                lexs.append((x[0] if isinstance(x, tuple) else x, ur))
     uniq = sorted(set(lexs))
     cin = ctx.path('gen', 'alpha-cases.ndjson')
     cout = ctx.path('gen', 'alpha-items.ndjson')
     with open(cin, 'w') as fh:
-        for i, x in enumerate(uniq):
-            fh.write(json.dumps(dict(id=i, src=list(('x:' + x if x else 'x:y').encode()), inline=True, css2=False)) + '\n')
+        for i, (x, ur) in enumerate(uniq):
+            # lexemes of the unicode-range family are tokenized under that descriptor (<urange> production)
+            fh.write(json.dumps(dict(id=i, src=list((('unicode-range:' if ur else 'x:') + x if x else 'x:y').encode()), inline=True, css2=False)) + '\n')
     vlib.run([exe, 'dump', cin, cout], timeout=300)
     toks = {}
     for l in open(cout):
         d = json.loads(l)
-        x = uniq[d['id']]
+        x, ur = uniq[d['id']]
         its = d['items']
-        toks[x] = its[0]['pre'] if (x and its and its[0]['t'] == 'decl') else []
+        toks[(x, ur)] = its[0]['pre'] if (x and its and its[0]['t'] == 'decl') else []
     # selector lexemes are tokenized as preludes
     cin2 = ctx.path('gen', 'alpha-sel.ndjson')
     cout2 = ctx.path('gen', 'alpha-sel-items.ndjson')
@@ -361,7 +373,7 @@ def write_alpha(ctx, exe, tier):
                 elif F['kind'] == 'num' and slot is F['slots'][2]:
                     ents.append(dict(lex=x, cls='', toks=[], w='', v=[]))
                 else:
-                    ents.append(dict(lex=x, cls='', toks=toks[x], w='', v=[]))
+                    ents.append(dict(lex=x, cls='', toks=toks[(x, bool(F['props']) and F['props'][0] == 'unicode-range')], w='', v=[]))
             rec['slots'].append(ents)
         fams.append(rec)
     p = ctx.path('gen', 'alpha.ndjson')
@@ -371,12 +383,14 @@ def write_alpha(ctx, exe, tier):
 
 def render(F, fam, seq):
     """text of the value (or selector) a generator state stands for; mirrors CssGen!Toks"""
-    lex = lambda j: fam['slots'][0 if F['kind'] in ('list', 'sel') else j][seq[j] - 1]['lex']
+    lex = lambda j: fam['slots'][0 if F['kind'] in ('list', 'sel', 'clist') else j][seq[j] - 1]['lex']
     n = len(seq)
     if F['kind'] == 'list':
         return ' '.join(lex(j) for j in range(n))
     if F['kind'] == 'sel':
         return ''.join(lex(j) for j in range(n))
+    if F['kind'] == 'clist':
+        return ','.join(lex(j) for j in range(n))
     if F['kind'] == 'func':
         a = [lex(j) for j in range(4)]
         if F['sep'] == 'comma':
@@ -410,7 +424,7 @@ def parse_dump(path):
 
 
 def complete(F, fam, seq):
-    if F['kind'] in ('list', 'sel'):
+    if F['kind'] in ('list', 'sel', 'clist'):
         return len(seq) >= fam['min']
     return len(seq) == len(fam['slots'])
 
@@ -538,7 +552,7 @@ def gen_cases(ctx):
         if not complete(F, fam, st['seq']):
             continue
         text = render(F, fam, st['seq'])
-        lexs = [fam['slots'][0 if F['kind'] in ('list', 'sel') else j][c - 1]['lex'] for j, c in enumerate(st['seq'])]
+        lexs = [fam['slots'][0 if F['kind'] in ('list', 'sel', 'clist') else j][c - 1]['lex'] for j, c in enumerate(st['seq'])]
         per_fam.setdefault(F['fam'], [0, 0])
         per_fam[F['fam']][0] += 1
         if F['kind'] == 'sel':
